@@ -35,9 +35,13 @@ def _check_chunk(cases):
     divs = []
     wd = par.workdir()
     path = os.path.join(wd, "prob.txt")
+    ncpath = os.path.join(wd, "prob.nc")
     No = verif.axis.No()
 
-    for c in cases:
+    for ci, c in enumerate(cases):
+        # every other case goes through a NetCDF file whose threshold / quantile coordinate is stored in DESCENDING order (the columns of
+        # cdf / x follow the coordinate variable, whatever its order)
+        reverse_nc = ci % 2 == 1
         def bad(site, detail):
             divs.append((site, detail, {"kind": "prob", "case": {k: c[k] for k in c if k not in ("per",)}}))
 
@@ -46,7 +50,7 @@ def _check_chunk(cases):
             n += 1
             want = expr.ev(e) if isinstance(e, dict) else e
             g = float(np.ma.filled(got, np.nan)) if np.ma.is_masked(got) else float(got)
-            if not expr.agrees(want, g, rtol=rtol, atol=1e-10):
+            if not expr.agrees(want, g, rtol=(max(rtol, 2e-6) if reverse_nc else rtol), atol=1e-10):
                 bad(site, "%s: expected %r observed %r" % (label, want, g))
         try:
             with quiet(), np.errstate(all="ignore"):
@@ -62,9 +66,18 @@ def _check_chunk(cases):
                     inp = _file_input(c["cases"], {"obs": 0})
                     inp["thresholds"] = [1, 2]
                     inp["cdf"] = [v for row in c["cases"] for v in (row[1], row[2])]
-                    mat.write_text(path, inp)
+                    src = path
+                    if reverse_nc:
+                        inp["thresholds"] = [2, 1]
+                        inp["cdf"] = [v for row in c["cases"] for v in (row[2], row[1])]
+                        if os.path.exists(ncpath):
+                            os.remove(ncpath)
+                        mat.write_netcdf(ncpath, inp)
+                        src = ncpath
+                    else:
+                        mat.write_text(path, inp)
                     for bt, per in c["per"].items():
-                        data = verif.data.Data([verif.input.get_input(path)])
+                        data = verif.data.Data([verif.input.get_input(src)])
                         iv = verif.util.get_intervals(bt, np.array([1.0, 2.0]))[0]
                         # all scores twice on the SAME Data object: a score that rewrites what the dataset handed out shows in the second pass
                         for again in ("", " (second evaluation on the same Data object)"):
@@ -76,8 +89,16 @@ def _check_chunk(cases):
                     lo, hi = [mat.num(x) for x in c["levels"]]
                     inp["quantiles"] = [lo, hi]
                     inp["x"] = [v for row in c["cases"] for v in (row[2], row[3])]
-                    mat.write_text(path, inp)
-                    data = verif.data.Data([verif.input.get_input(path)])
+                    if reverse_nc:
+                        inp["quantiles"] = [hi, lo]
+                        inp["x"] = [v for row in c["cases"] for v in (row[3], row[2])]
+                        if os.path.exists(ncpath):
+                            os.remove(ncpath)
+                        mat.write_netcdf(ncpath, inp)
+                        data = verif.data.Data([verif.input.get_input(ncpath)])
+                    else:
+                        mat.write_text(path, inp)
+                        data = verif.data.Data([verif.input.get_input(path)])
                     I = verif.interval.Interval
                     lab = "cases(obs,fcst,x%g,x%g)=%r" % (lo, hi, c["cases"])
                     cmp("prob:quantilescore", "quantilescore %g %s" % (lo, lab), c["qsLo"], verif.metric.QuantileScore().compute_single(data, 0, No, 0, I(lo, np.inf, False, False)))
@@ -130,6 +151,18 @@ def _check_chunk(cases):
                     cmp("prob:pithistdev", "pithistdev " + lab, c["dev"], verif.metric.PitHistDev().compute_single(data, 0, No, 0, None))
                     cmp("prob:pithistslope", "pithistslope " + lab, c["slope"], verif.metric.PitHistSlope().compute_single(data, 0, No, 0, None))
                     cmp("prob:pithistshape", "pithistshape " + lab, c["shape"], verif.metric.PitHistShape().compute_single(data, 0, No, 0, None))
+                    # a variable with a discrete mass at x0 (here: every observation sits on it): the PIT values are then spread at random
+                    # below their stored value -- a missing PIT stays missing, a valid one stays in [0, stored value]
+                    inp["variable"] = {"variable": "Precip", "units": "mm", "x0": 0.5}
+                    mat.write_text(path, inp)
+                    data = verif.data.Data([verif.input.get_input(path)])
+                    got = np.asarray(data.get_scores(verif.field.Pit(), 0, verif.axis.All(), None), float).reshape(-1)
+                    n += 1
+                    stored = [num(v) for v in c["pit"]]
+                    if len(got) != len(stored) or any(math.isnan(s) != math.isnan(float(g)) or (not math.isnan(s) and not (-1e-12 <= float(g) <= s + 1e-12))
+                                                      for s, g in zip(stored, got)):
+                        bad("prob:pit:discrete-mass", "pit values %r read with `# x0: 0.5` (all observations on x0): observed %r; a missing value must stay "
+                            "missing and a valid one within [0, stored]" % (c["pit"], got.tolist()))
         except SystemExit:
             bad("prob:error-exit", "case ended in an error exit")
         except Exception as e:
